@@ -7,6 +7,20 @@ import re
 import glob
 from collections import defaultdict
 
+# Callees through which provenance slices continue into the arguments (the call itself
+# stays in the origin set as a tag): wrappers, conversions, checked/saturating arithmetic.
+TRANSPARENT = re.compile(
+    r'(std::path::Path::new$|::as_ref$|::as_mut$|::deref$|::deref_mut$|::clone$|::into$|::from$|::to_owned$|::borrow$|::borrow_mut$'
+    r'|::to_path_buf$|::to_string$|::to_vec$|::as_str$|::as_slice$|::as_mut_slice$|::as_path$|::as_ptr$|::as_mut_ptr$|::as_bytes$'
+    r'|core::option::Option::<T>::(unwrap|expect|unwrap_or|unwrap_or_default|copied|cloned|as_deref|ok_or|ok_or_else|take|filter)$'
+    r'|core::result::Result::<T, E>::(unwrap|expect|unwrap_or|map_err|ok)$'
+    r'|Try>::branch$|::try_from$|::try_into$|::min$|::max$|::clamp$|::as_usize$'
+    r'|::(saturating|checked|wrapping|overflowing)_(add|sub|mul|add_signed|neg|pow|shl)$|::abs_diff$|::unsigned_abs$|::abs$'
+    r'|core::slice::<impl \[T\]>::len$|alloc::vec::Vec::<T, A>::len$|::len$'
+    r'|alloc::sync::Arc::<T>::new$|alloc::boxed::Box::<T>::new$|alloc::rc::Rc::<T>::new$|ManuallyDrop::<T>::new$'
+    r'|core::num::<impl [a-z0-9]+>::(from_le_bytes|from_be_bytes|from_ne_bytes)$'
+    r'|core::iter::traits::iterator::Iterator::(product|sum|copied|cloned|rev)$|::iter$|::into_iter$)')
+
 FN_PREFIX = '{"k":"fn","p":"'
 REACH_PREFIX = '{"k":"reach","root":"'
 
@@ -586,7 +600,7 @@ class Fn:
         return out
 
     # ---- provenance ----------------------------------------------------------
-    def origins(self, op, depth=12, _seen=None):
+    def origins(self, op, depth=40, _seen=None):
         """Backward slice of an operand to a set of origin tuples (flow-insensitive union
         over all assignments to each local; see DESIGN §2)."""
         if _seen is None:
@@ -606,7 +620,7 @@ class Fn:
         place = op[1]
         return self.place_origins(place, depth, _seen)
 
-    def place_origins(self, place, depth=12, _seen=None):
+    def place_origins(self, place, depth=40, _seen=None):
         if _seen is None:
             _seen = set()
         out = set()
@@ -630,6 +644,9 @@ class Fn:
             if kind == 'call':
                 c = payload
                 out.add(('call', c.callee, c.bb, fields))
+                if c.callee and TRANSPARENT.search(c.callee):
+                    for a in c.args:
+                        out |= self.origins(a, depth - 1, _seen)
                 continue
             rv = payload
             rk = rv[0]
@@ -775,7 +792,7 @@ class Guard:
             if rv[0] == 'bin' and rv[1] in ('Lt', 'Le', 'Gt', 'Ge', 'Eq', 'Ne'):
                 return ('cmp', rv[1], rv[2], rv[3])
             if rv[0] == 'disc':
-                return ('disc', rv[1])
+                return ('disc', rv[1], rv[2] if len(rv) > 2 else None, rv[3] if len(rv) > 3 else None)
             if rv[0] == 'un' and rv[1] == 'Not' and depth > 0:
                 return ('not', self._resolve(rv[2], depth - 1))
             if rv[0] == 'bin':
